@@ -130,6 +130,30 @@ theorem truncate_eq_dynTrunc (hm : List Nat) (hlen : 20 ≤ hm.length) (modulus 
     ne_eq, not_true_eq_false, if_false, u32OfBytes, otpBigEndian, beNum4, finalise, hmask,
     Rfc.dynTrunc]
 
+/-- `verify` when both digests return codes (stated over opaque codes: the tactics below never
+see a hash). -/
+theorem verify_of_digests (t : Totp) (chal secs c1 c2 : Nat) (hstep : t.step ≠ 0)
+    (h1 : digestAt t (firstCounter (counterOf secs t.step)) = some (.ok c1))
+    (h2 : digestAt t (secondCounter (counterOf secs t.step)) = some (.ok c2)) :
+    verify t chal secs = some (chal == c1 || chal == c2) := by
+  unfold verify
+  rw [if_neg hstep]
+  simp only [checkAt, h1, h2, matchCode, codeMatches]
+  rw [@BEq.comm _ _ _ chal c1, @BEq.comm _ _ _ chal c2]
+  cases (c1 == chal) <;> cases (c2 == chal) <;> rfl
+
+/-- `verify` when the second digest's argument overflows (`0 - 1`): `||` short-circuits on a
+match of the first code, otherwise the panic surfaces. -/
+theorem verify_of_first_only (t : Totp) (chal secs c0 : Nat) (hstep : t.step ≠ 0)
+    (h1 : digestAt t (firstCounter (counterOf secs t.step)) = some (.ok c0))
+    (h2 : digestAt t (secondCounter (counterOf secs t.step)) = none) :
+    verify t chal secs = if chal == c0 then some true else none := by
+  unfold verify
+  rw [if_neg hstep]
+  simp only [checkAt, h1, h2, matchCode, codeMatches]
+  rw [@BEq.comm _ _ _ chal c0]
+  cases (c0 == chal) <;> rfl
+
 /-- A `u64` argument that is in range is simply passed to `digest`. -/
 theorem digestAt_of_nat (t : Totp) (n : Nat) (h : n < 18446744073709551616) :
     digestAt t (n : Int) = digest t n := by
